@@ -2,11 +2,15 @@
 //! Usage: anydb-verif <PROPERTY> [--tier quick|thorough] [--replay <path>]
 
 mod c_crash;
+mod c_codec;
 mod c_raw;
+mod c_vec;
 mod common;
 mod crash;
 mod obs;
+mod probes;
 mod rawmodel;
+mod vecmodel;
 
 use std::{path::PathBuf, time::Instant};
 
@@ -70,6 +74,8 @@ fn main() {
     let code = match prop.as_str() {
         "C01" => c_raw::check_c01(&ctx),
         "C02" => c_raw::check_c02(&ctx),
+        "C03" => c_vec::check_c03(&ctx),
+        "C04" => c_vec::check_c04(&ctx),
         "C05" => c_crash::check_c05(&ctx),
         "C12" => c_crash::check_c12(&ctx),
         "C13raw" => {
